@@ -98,8 +98,12 @@ def _ancestors_and_self(name, classes, parent):
 OPT_DEFAULTS = {"opt_int": "7", "opt_str": "'dflt'", "opt_float": "2.5", "opt_enum": "Color.G"}
 
 
-def annotation(f):
+def annotation(f, quote=False):
+    """quote=True: the module does not postpone annotations, class names inside the annotation are string forward
+    references (List["K3"], Optional["K3"], Type["K3"], "K3")"""
     k, t = f["kind"], f["target"]
+    if quote and t is not None:
+        t = f'"{t}"'
     if k in OPT_DEFAULTS and f.get("dflt"):
         return ANNOT[k][0], OPT_DEFAULTS[k]
     if k in ANNOT:
@@ -117,8 +121,8 @@ def annotation(f):
     raise ValueError(k)
 
 
-def render(spec):
-    lines = ["from __future__ import annotations", "from dataclasses import dataclass, field",
+def render(spec, postponed=True):
+    lines = (["from __future__ import annotations"] if postponed else []) + ["from dataclasses import dataclass, field",
              "from typing_extensions import List, Optional, Set, Type", "from enum import Enum",
              "from datetime import datetime", "", "", "class Color(Enum):", "    R = 'r'", "    G = 'g'", "    B = 'b'", "", ""]
     # python needs a parent class defined before its child: emit in an order that respects inheritance but is
@@ -139,7 +143,7 @@ def render(spec):
         if not c["fields"]:
             lines.append("    pass")
         for f in c["fields"]:
-            ann, dflt = annotation(f)
+            ann, dflt = annotation(f, quote=not postponed)
             lines.append(f"    {f['name']}: {ann} = {dflt}")
         lines.append("")
         lines.append("")
